@@ -5,7 +5,6 @@
 From Yv Require Import Common.Base C02.Model C02.Spec C02.ProofsMono C02.ProofsSim.
 
 Section Rev.
-Variable strict : bool.
 
 (* the model side of a result *)
 Definition rpost (f : nat -> option res) (sv : option N) (out : sres) : Prop :=
@@ -20,111 +19,111 @@ Qed.
 (* invariants of model results, from the forward theorem *)
 Lemma fwd_cmd stk c s r s' d infun ex :
   ok (fun k => exec_cmd k stk c s) (r, s') -> ctx_ok stk d infun ex ->
-  wf_cmd strict d infun c = true -> state_ok strict s ->
-  state_ok strict s' /\ res_ok strict infun d r.
+  wf_cmd d infun c = true -> state_ok s ->
+  state_ok s' /\ res_ok infun d r.
 Proof.
   intros [m Hm] Hc Hw Hs. specialize (Hm m (le_n m)).
-  destruct (sa_cmd _ _ (sim_holds strict m) _ _ _ _ _ _ _ _ Hm Hc Hw Hs) as (A & B & _). auto.
+  destruct (sa_cmd _ (sim_holds m) _ _ _ _ _ _ _ _ Hm Hc Hw Hs) as (A & B & _). auto.
 Qed.
 
 Lemma fwd_list stk l s r s' d infun ex :
   ok (fun k => exec_list k stk l s) (r, s') -> ctx_ok stk d infun ex ->
-  wf_list strict d infun l = true -> state_ok strict s ->
-  state_ok strict s' /\ res_ok strict infun d r.
+  wf_list d infun l = true -> state_ok s ->
+  state_ok s' /\ res_ok infun d r.
 Proof.
   intros [m Hm] Hc Hw Hs. specialize (Hm m (le_n m)).
-  destruct (sa_list _ _ (sim_holds strict m) _ _ _ _ _ _ _ _ Hm Hc Hw Hs) as (A & B & _). auto.
+  destruct (sa_list _ (sim_holds m) _ _ _ _ _ _ _ _ Hm Hc Hw Hs) as (A & B & _). auto.
 Qed.
 
 Lemma fwd_andor stk a s r s' d infun ex :
   ok (fun k => exec_andor k stk a s) (r, s') -> ctx_ok stk d infun ex ->
-  wf_andor strict d infun a = true -> state_ok strict s ->
-  state_ok strict s' /\ res_ok strict infun d r.
+  wf_andor d infun a = true -> state_ok s ->
+  state_ok s' /\ res_ok infun d r.
 Proof.
   intros [m Hm] Hc Hw Hs. specialize (Hm m (le_n m)).
-  destruct (sa_andor _ _ (sim_holds strict m) _ _ _ _ _ _ _ _ Hm Hc Hw Hs) as (A & B & _). auto.
+  destruct (sa_andor _ (sim_holds m) _ _ _ _ _ _ _ _ Hm Hc Hw Hs) as (A & B & _). auto.
 Qed.
 
 Lemma fwd_pipeline stk p s r s' d infun ex :
   ok (fun k => exec_pipeline k stk p s) (r, s') -> ctx_ok stk d infun ex ->
-  wf_pipeline strict d infun p = true -> state_ok strict s ->
-  state_ok strict s' /\ res_ok strict infun d r.
+  wf_pipeline d infun p = true -> state_ok s ->
+  state_ok s' /\ res_ok infun d r.
 Proof.
   intros [m Hm] Hc Hw Hs. specialize (Hm m (le_n m)).
-  destruct (sa_pipeline _ _ (sim_holds strict m) _ _ _ _ _ _ _ _ Hm Hc Hw Hs) as (A & B & _). auto.
+  destruct (sa_pipeline _ (sim_holds m) _ _ _ _ _ _ _ _ Hm Hc Hw Hs) as (A & B & _). auto.
 Qed.
 
 Lemma fwd_commands stk cs s r s' d infun ex :
   ok (fun k => exec_commands k stk cs s) (r, s') -> ctx_ok stk d infun ex ->
-  wf_pipeline strict d infun (Pipe false cs) = true -> state_ok strict s ->
-  state_ok strict s' /\ res_ok strict infun d r.
+  wf_pipeline d infun (Pipe false cs) = true -> state_ok s ->
+  state_ok s' /\ res_ok infun d r.
 Proof.
   intros [m Hm] Hc Hw Hs. specialize (Hm m (le_n m)).
-  destruct (sa_commands _ _ (sim_holds strict m) _ _ _ _ _ _ _ _ Hm Hc Hw Hs) as (A & B & _). auto.
+  destruct (sa_commands _ (sim_holds m) _ _ _ _ _ _ _ _ Hm Hc Hw Hs) as (A & B & _). auto.
 Qed.
 
 (* ---- the claims ---- *)
 Definition rsim_cmd (n : nat) : Prop := forall stk c s out d infun ex sv,
   sem_cmd n d ex sv c s = Some out -> ctx_ok stk d infun ex ->
-  wf_cmd strict d infun c = true -> state_ok strict s ->
+  wf_cmd d infun c = true -> state_ok s ->
   rpost (fun k => exec_cmd k stk c s) sv out.
 
 Definition rsim_list (n : nat) : Prop := forall stk l s out d infun ex sv,
   sem_list n d ex sv l s = Some out -> ctx_ok stk d infun ex ->
-  wf_list strict d infun l = true -> state_ok strict s ->
+  wf_list d infun l = true -> state_ok s ->
   rpost (fun k => exec_list k stk l s) sv out.
 
 Definition rsim_andor (n : nat) : Prop := forall stk a s out d infun ex sv,
   sem_andor n d ex sv a s = Some out -> ctx_ok stk d infun ex ->
-  wf_andor strict d infun a = true -> state_ok strict s ->
+  wf_andor d infun a = true -> state_ok s ->
   rpost (fun k => exec_andor k stk a s) sv out.
 
 Definition rsim_pipeline (n : nat) : Prop := forall stk p s out d infun ex sv,
   sem_pipeline n d ex sv p s = Some out -> ctx_ok stk d infun ex ->
-  wf_pipeline strict d infun p = true -> state_ok strict s ->
+  wf_pipeline d infun p = true -> state_ok s ->
   rpost (fun k => exec_pipeline k stk p s) sv out.
 
 Definition rsim_commands (n : nat) : Prop := forall stk cs s out d infun ex sv,
   sem_commands n d ex sv cs s = Some out -> ctx_ok stk d infun ex ->
-  wf_pipeline strict d infun (Pipe false cs) = true -> state_ok strict s ->
+  wf_pipeline d infun (Pipe false cs) = true -> state_ok s ->
   rpost (fun k => exec_commands k stk cs s) sv out.
 
 Definition rsim_multi (n : nat) : Prop := forall stk cs s0 acc acc' infun ex,
   sem_multi n ex cs s0 acc = Some acc' -> ex = has_cond stk ->
-  wf_cmds strict infun cs = true -> state_ok strict s0 ->
+  wf_cmds infun cs = true -> state_ok s0 ->
   ok (fun k => exec_multi k stk cs s0 acc) acc'.
 
 Definition rsim_subshell (n : nat) : Prop := forall stk body s c' infun ex,
   sem_subshell n ex body s = Some c' -> ex = has_cond stk ->
-  wf_list strict 0 infun body = true -> state_ok strict s ->
+  wf_list 0 infun body = true -> state_ok s ->
   ok (fun k => run_subshell k stk body s) c'.
 
 Definition rsim_trap (n : nat) : Prop := forall stk s s' ex,
-  sem_exit_trap n ex s = Some s' -> ex = has_cond stk -> state_ok strict s ->
+  sem_exit_trap n ex s = Some s' -> ex = has_cond stk -> state_ok s ->
   ok (fun k => run_exit_trap k stk s) s'.
 
 Definition rsim_else (n : nat) : Prop := forall stk e has_else els s out d infun ex sv,
   sem_else n d ex sv e has_else els s = Some out -> ctx_ok stk d infun ex ->
-  wf_elifs strict d infun e = true -> wf_list strict d infun els = true -> state_ok strict s ->
+  wf_elifs d infun e = true -> wf_list d infun els = true -> state_ok s ->
   rpost (fun k => exec_elifs k stk e has_else els s) sv out.
 
 Definition rsim_for (n : nat) : Prop := forall stk x values body s out d infun ex sv,
   sem_for n d ex sv x values body s = Some out -> ctx_ok stk (S d) infun ex ->
-  wf_list strict (S d) infun body = true -> state_ok strict s ->
+  wf_list (S d) infun body = true -> state_ok s ->
   rpost (fun k => exec_for k stk x values body s) sv out.
 
 (* loops: the model result of Loop::execute, with its register *)
 Definition rsim_loop (n : nat) : Prop := forall stk cond u body s reg out d infun ex sv,
   sem_loop n d ex sv u cond body reg s = Some out -> ctx_ok stk (S d) infun ex ->
-  wf_list strict (S d) infun cond = true -> wf_list strict (S d) infun body = true ->
-  state_ok strict s ->
+  wf_list (S d) infun cond = true -> wf_list (S d) infun body = true ->
+  state_ok s ->
   exists r s1 reg1,
     ok (fun k => loop_execute k stk cond (negb u) body s reg) (r, s1, reg1) /\
     (match r with Cont => (Normal, set_status reg1 s1) | _ => abs sv r s1 end) = out.
 
 Definition rsim_clause (n : nat) : Prop := forall stk subject body kc rest pats upd s out d infun ex sv,
   sem_clause n d ex sv subject body kc rest s = Some out -> ctx_ok stk d infun ex ->
-  wf_list strict d infun body = true -> wf_items strict d infun rest = true -> state_ok strict s ->
+  wf_list d infun body = true -> wf_items d infun rest = true -> state_ok s ->
   forall ft, ft || existsb (match_pat subject) pats = true ->
   rpost (fun k => exec_items k stk subject (ICons pats body kc rest) ft upd s) sv out.
 
@@ -190,7 +189,7 @@ Lemma rrest n : rsim_pipeline n -> forall rs stk s1 d infun ex sv t s0 out,
   rs <> RNil ->
   sem_tree (tree_P n d sv) ex (aotree_of t rs) true s0 = Some out ->
   sem_tree (tree_P n d sv) ex t false s0 = Some (Normal, s1) ->
-  ctx_ok stk d infun ex -> wf_rest strict d infun rs = true -> state_ok strict s1 ->
+  ctx_ok stk d infun ex -> wf_rest d infun rs = true -> state_ok s1 ->
   rpost (fun k => exec_rest k stk rs s1) sv out.
 Proof.
   intros Ipipe. induction rs as [|op p rs IH]; intros stk s1 d infun ex sv t s0 out Hn H Ht Hc Hw Hs;
@@ -265,7 +264,7 @@ Lemma rstep_pipeline n : rsim_commands n -> rsim_pipeline (S n).
 Proof.
   intros Icmds stk p s out d infun ex sv H Hc Hw Hs.
   destruct p as [neg cs]. rewrite sem_pipeline_eq in H.
-  assert (Hw' : wf_pipeline strict d infun (Pipe false cs) = true) by exact Hw.
+  assert (Hw' : wf_pipeline d infun (Pipe false cs) = true) by exact Hw.
   destruct (sem_commands n d (ex || neg) sv cs s) as [[c1 s1]|] eqn:Ec; [|discriminate].
   destruct neg.
   - rewrite orb_true_r in Ec.
@@ -296,7 +295,7 @@ Proof.
   - remember (CCons c (CCons c2 cs2)) as cs eqn:Ecs.
     destruct (sem_multi n ex cs s s) as [s1|] eqn:Em; [|discriminate].
     inversion H; subst out.
-    assert (Hwm : wf_cmds strict infun cs = true) by (subst cs; exact Hw).
+    assert (Hwm : wf_cmds infun cs = true) by (subst cs; exact Hw).
     pose proof (Imulti stk _ _ _ _ infun ex Em (co_ex _ _ _ _ Hc) Hwm Hs) as Hok.
     exists (apply_errexit stk s1), s1. split.
     + ok_start. cbn [exec_commands]. rewrite Ecs, <- Ecs. ok_rw. reflexivity.
@@ -313,14 +312,14 @@ Proof.
       as [[c1 c1s]|] eqn:Ec; [|discriminate].
     destruct (sem_exit_trap n ex c1s) as [c2|] eqn:Et; [|discriminate].
     assert (Hctx : ctx_ok (FSubshell :: stk) 0 infun ex) by (split; cbn; auto).
-    assert (Hs0 : state_ok strict (child_state (set_trace (trace acc) s0))).
+    assert (Hs0 : state_ok (child_state (set_trace (trace acc) s0))).
     { apply state_ok_child. eapply state_ok_same; [..|exact Hs]; reflexivity. }
     destruct (Icmd (FSubshell :: stk) _ _ _ _ _ _ _ Ec Hctx Hwc Hs0) as (r & cs1 & Hok1 & Habs1).
     destruct (fwd_cmd _ _ _ _ _ _ _ _ Hok1 Hctx Hwc Hs0) as [Hs1 _].
     assert (E1 : c1s = apply_result r cs1).
     { rewrite <- abs_none_apply_result, Habs1. reflexivity. }
     subst c1s.
-    pose proof (Itrap (FSubshell :: stk) _ _ ex Et He (state_ok_apply_result strict r _ Hs1)) as Hok2.
+    pose proof (Itrap (FSubshell :: stk) _ _ ex Et He (state_ok_apply_result r _ Hs1)) as Hok2.
     pose proof (Imulti stk _ _ _ _ infun ex H He Hwr Hs) as Hok3.
     ok_start. cbn [exec_multi]. unfold child_state in *. ok_rw. reflexivity.
 Qed.
@@ -331,14 +330,13 @@ Proof.
   intros Ilist stk s s' ex H He Hs.
   cbn [sem_exit_trap] in H. destruct (exit_trap s) as [action|] eqn:Etrap.
   - destruct (sem_list n 0 ex (Some (status s)) action s) as [[c1 s1]|] eqn:El; [|discriminate].
-    destruct (so_trap _ _ Hs _ Etrap) as [Hstrict Hwa].
+    pose proof (so_trap _ Hs _ Etrap) as Hwa.
     destruct (Ilist (FTrap :: stk) _ _ _ _ _ _ _ El (ctx_trap stk ex false He) Hwa Hs)
       as (r & s1' & Hok1 & Habs1).
-    destruct (fwd_list _ _ _ _ _ _ _ _ Hok1 (ctx_trap stk ex false He) Hwa Hs) as [_ [R1 R2 R3 _ _]].
-    specialize (R1 eq_refl). specialize (R2 Hstrict).
+    destruct (fwd_list _ _ _ _ _ _ _ _ Hok1 (ctx_trap stk ex false He) Hwa Hs) as [_ [R1 R3 _ _]].
+    specialize (R1 eq_refl).
     destruct r as [|[c|c|o|[v|]|[v|]|o]];
-      try (exfalso; eapply R1; reflexivity); try (exfalso; eapply R2; reflexivity);
-      try (exfalso; eapply R3; reflexivity);
+      try (exfalso; eapply R1; reflexivity); try (exfalso; eapply R3; reflexivity);
       cbn [abs exit_no_operand] in Habs1; inversion Habs1; subst c1 s1; inversion H; subst s';
       (ok_start; cbn [run_exit_trap]; rewrite Etrap; ok_rw; reflexivity).
   - inversion H; subst s'. exists 1. intros [|k] Hk; [lia|]. cbn [run_exit_trap]. rewrite Etrap.
@@ -351,21 +349,21 @@ Proof.
   cbn [sem_subshell] in H.
   destruct (sem_list n 0 ex None body (set_exit_trap None s)) as [[c1 c1s]|] eqn:El; [|discriminate].
   assert (Hctx : ctx_ok (FSubshell :: stk) 0 infun ex) by (split; cbn; auto).
-  destruct (Ilist (FSubshell :: stk) _ _ _ _ _ _ _ El Hctx Hw (state_ok_child _ _ Hs))
+  destruct (Ilist (FSubshell :: stk) _ _ _ _ _ _ _ El Hctx Hw (state_ok_child _ Hs))
     as (r & cs1 & Hok1 & Habs1).
-  destruct (fwd_list _ _ _ _ _ _ _ _ Hok1 Hctx Hw (state_ok_child _ _ Hs)) as [Hs1 _].
+  destruct (fwd_list _ _ _ _ _ _ _ _ Hok1 Hctx Hw (state_ok_child _ Hs)) as [Hs1 _].
   assert (E1 : c1s = apply_result r cs1).
   { rewrite <- abs_none_apply_result, Habs1. reflexivity. }
   subst c1s.
-  pose proof (Itrap (FSubshell :: stk) _ _ ex H He (state_ok_apply_result strict r _ Hs1)) as Hok2.
+  pose proof (Itrap (FSubshell :: stk) _ _ ex H He (state_ok_apply_result r _ Hs1)) as Hok2.
   ok_start. cbn [run_subshell]. unfold child_state in *. ok_rw. reflexivity.
 Qed.
 
 (* ---- if ---- *)
 Lemma rstep_else n : rsim_list n -> rsim_else n -> forall stk cond body e has_else els s out d infun ex sv,
   sem_cmd (S n) d ex sv (CIf cond body e has_else els) s = Some out -> ctx_ok stk d infun ex ->
-  wf_list strict d infun cond = true -> wf_list strict d infun body = true ->
-  wf_elifs strict d infun e = true -> wf_list strict d infun els = true -> state_ok strict s ->
+  wf_list d infun cond = true -> wf_list d infun body = true ->
+  wf_elifs d infun e = true -> wf_list d infun els = true -> state_ok s ->
   exists r s',
     ok (fun k => match exec_list k (FCondition :: stk) cond s with
                  | None => None
@@ -402,7 +400,7 @@ Proof.
       exists 1. intros [|k] Hk; [lia|]. reflexivity.
   - cbn [wf_elifs] in Hwe. apply andb_true_iff in Hwe as [Hwe Hwe'].
     apply andb_true_iff in Hwe as [Hwc Hwb].
-    assert (Hw : wf_cmd strict d infun (CIf cond body e' has_else els) = true).
+    assert (Hw : wf_cmd d infun (CIf cond body e' has_else els) = true).
     { cbn [wf_cmd]. rewrite Hwc, Hwb, Hwe', Hwl. reflexivity. }
     destruct (Icmd stk _ _ _ _ _ _ _ H Hc Hw Hs) as (r & s' & Hok & Habs).
     exists r, s'. split; [|exact Habs].
@@ -422,7 +420,7 @@ Proof.
       * exists 1. intros [|k] Hk; [lia|]. cbn [exec_for]. rewrite Ero. reflexivity.
       * apply (abs_expansion_error stk sv s ErrAssignment eq_refl eq_refl ex).
     + destruct (sem_list n (S d) ex sv body (set_var x (Some v) s)) as [[c1 s1]|] eqn:Eb; [|discriminate].
-      assert (Hsv : state_ok strict (set_var x (Some v) s))
+      assert (Hsv : state_ok (set_var x (Some v) s))
         by (eapply state_ok_same; [..|exact Hs]; reflexivity).
       destruct (Ilist stk _ _ _ _ _ _ _ Eb Hc Hw Hsv) as (rb & sb & Hokb & Habsb).
       destruct (fwd_list _ _ _ _ _ _ _ _ Hokb Hc Hw Hsv) as [Hsb _].
@@ -661,8 +659,8 @@ Proof.
 Qed.
 
 Lemma find_clause_wf subject d infun : forall items b' k' rest',
-  find_clause subject items = Some (b', k', rest') -> wf_items strict d infun items = true ->
-  wf_list strict d infun b' = true /\ wf_items strict d infun rest' = true.
+  find_clause subject items = Some (b', k', rest') -> wf_items d infun items = true ->
+  wf_list d infun b' = true /\ wf_items d infun rest' = true.
 Proof.
   induction items as [|p0 b0 k0 r0 IH]; intros b' k' rest' Ef Hw; [discriminate|].
   cbn [find_clause wf_items] in *. apply andb_true_iff in Hw as [A B].
@@ -707,5 +705,234 @@ Proof.
         ok_start. cbn [exec_items]. rewrite Hsel. ok_rw. reflexivity.
   - exists (Brk dv), sb. split; [ok_start; cbn [exec_items]; rewrite Hsel; ok_rw; reflexivity|].
     brk_case H Habsb c1 out.
+Qed.
+
+(* ---- simple commands ---- *)
+Ltac now1 := let k := fresh "k" in let Hk := fresh "Hk" in exists 1; intros [|k] Hk; [lia|].
+
+Lemma rstep_call n : rsim_cmd n -> forall stk dc nm args s out d infun ex sv,
+  sem_cmd (S n) d ex sv (CCall dc nm args) s = Some out -> ctx_ok stk d infun ex ->
+  wf_cmd d infun (CCall dc nm args) = true -> state_ok s ->
+  rpost (fun k => exec_cmd k stk (CCall dc nm args) s) sv out.
+Proof.
+  intros Icmd stk dc nm args s out d infun ex sv H Hc Hw Hs.
+  pose proof (co_ex _ _ _ _ Hc) as Hex.
+  cbn [sem_cmd] in H.
+  (* a built-in run by the model, as the specification's utility *)
+  assert (Hbuiltin : forall spf stk0,
+            ctx_ok stk0 d infun ex -> apply_errexit stk0 = apply_errexit stk ->
+            bad_redir dc = false ->
+            forall st dv sb, run_builtin nm spf (FBuiltin :: stk0) args s = ((st, dv), sb) ->
+            abs sv (match dv with Cont => apply_errexit stk (set_status st sb) | _ => dv end)
+                (set_status st sb) = run_utility nm spf d ex sv args s).
+  { intros spf stk0 Hc0 Happ Ebad st dv sb Eb.
+    destruct (builtin_sim nm spf stk0 d infun ex sv args s st dv sb Hc0
+                (wf_call_of_cmd _ _ _ _ _ Hw Ebad) Eb) as (Habs & _).
+    cbv zeta in Habs. rewrite Happ in Habs. exact Habs. }
+  destruct (via_command dc) eqn:Evia.
+  - destruct (bad_redir dc) eqn:Ebad.
+    + inversion H; subst out. exists (apply_errexit stk (set_status 2 s)), (set_status 2 s). split.
+      * now1. cbn [exec_cmd]. rewrite Evia, Ebad. reflexivity.
+      * apply abs_apply_errexit. exact Hex.
+    + destruct (is_special nm || is_regular_builtin nm) eqn:Eb.
+      * inversion H; subst out.
+        destruct (run_builtin nm false (FBuiltin :: FBuiltin :: stk) args s) as [[st dv] sb] eqn:Er.
+        exists (match dv with Cont => apply_errexit stk (set_status st sb) | _ => dv end), (set_status st sb).
+        split.
+        -- now1. cbn [exec_cmd]. rewrite Evia, Ebad. unfold classify_via_command.
+           apply orb_true_iff in Eb. destruct (is_special nm).
+           ++ rewrite Er. destruct dv; reflexivity.
+           ++ destruct Eb as [Eb|Eb]; [discriminate|]. rewrite Eb, Er. destruct dv; reflexivity.
+        -- exact (Hbuiltin false (FBuiltin :: stk) (ctx_builtin _ _ _ _ Hc) eq_refl eq_refl _ _ _ Er).
+      * inversion H; subst out. apply orb_false_iff in Eb as [E1 E2].
+        exists (apply_errexit stk (set_status 127 s)), (set_status 127 s). split.
+        -- now1. cbn [exec_cmd]. rewrite Evia, Ebad. unfold classify_via_command. rewrite E1, E2.
+           reflexivity.
+        -- apply abs_apply_errexit. exact Hex.
+  - unfold resolve in H.
+    destruct (is_special nm) eqn:Esp.
+    + destruct (bad_redir dc) eqn:Ebad.
+      * inversion H; subst out. exists (Brk (DInterrupt None)), (set_status 2 s). split; [|reflexivity].
+        now1. cbn [exec_cmd]. rewrite Evia. unfold classify. rewrite Esp. unfold execute_builtin.
+        rewrite Ebad. reflexivity.
+      * inversion H; subst out.
+        destruct (run_builtin nm true (FBuiltin :: stk) args s) as [[st dv] sb] eqn:Er.
+        exists (match dv with Cont => apply_errexit stk (set_status st sb) | _ => dv end), (set_status st sb).
+        split.
+        -- now1. cbn [exec_cmd]. rewrite Evia. unfold classify. rewrite Esp. unfold execute_builtin.
+           rewrite Ebad, Er. destruct dv; reflexivity.
+        -- exact (Hbuiltin true stk Hc eq_refl eq_refl _ _ _ Er).
+    + destruct (lookup_fun nm (funs s)) as [body|] eqn:Efun.
+      * destruct (bad_redir dc) eqn:Ebad.
+        -- inversion H; subst out. exists (apply_errexit stk (set_status 2 s)), (set_status 2 s). split.
+           ++ now1. cbn [exec_cmd]. rewrite Evia. unfold classify. rewrite Esp, Efun, Ebad. reflexivity.
+           ++ apply abs_apply_errexit. exact Hex.
+        -- destruct (sem_cmd n 0 ex sv body s) as [[c1 s1]|] eqn:Eb; [|discriminate].
+           destruct (Icmd stk _ _ _ _ _ _ _ Eb (ctx_fun _ _ _ _ Hc) (so_funs _ Hs _ _ Efun) Hs)
+             as (rb & sb & Hokb & Habsb).
+           assert (Hrun : forall r s',
+                     (match rb with
+                      | Brk (DReturn o) => Some (Cont, match o with Some st => set_status st sb | None => sb end)
+                      | _ => Some (rb, sb)
+                      end) = Some (r, s') ->
+                     ok (fun k => exec_cmd k stk (CCall dc nm args) s)
+                        (match r with Cont => apply_errexit stk s' | _ => r end, s')).
+           { intros r s' E. ok_start. cbn [exec_cmd]. rewrite Evia. unfold classify.
+             rewrite Esp, Efun, Ebad. ok_rw.
+             destruct rb as [|[c|c|[v|]|o|o|o]]; inversion E; subst; reflexivity. }
+           destruct rb as [|[c|c|[v|]|[v|]|[v|]|[v|]]]; cbn [abs] in Habsb; injection Habsb as <- <-;
+             inversion H; subst out;
+             (eexists; eexists; split; [apply Hrun; reflexivity |]);
+             cbv iota; try reflexivity; apply abs_apply_errexit; exact Hex.
+      * destruct (is_regular_builtin nm) eqn:Ereg.
+        -- destruct (bad_redir dc) eqn:Ebad.
+           ++ inversion H; subst out. exists (apply_errexit stk (set_status 2 s)), (set_status 2 s). split.
+              ** now1. cbn [exec_cmd]. rewrite Evia. unfold classify. rewrite Esp, Efun, Ereg.
+                 unfold execute_builtin. rewrite Ebad. reflexivity.
+              ** apply abs_apply_errexit. exact Hex.
+           ++ inversion H; subst out.
+              destruct (run_builtin nm false (FBuiltin :: stk) args s) as [[st dv] sb] eqn:Er.
+              exists (match dv with Cont => apply_errexit stk (set_status st sb) | _ => dv end), (set_status st sb).
+              split.
+              ** now1. cbn [exec_cmd]. rewrite Evia. unfold classify. rewrite Esp, Efun, Ereg.
+                 unfold execute_builtin. rewrite Ebad, Er. destruct dv; reflexivity.
+              ** exact (Hbuiltin false stk Hc eq_refl eq_refl _ _ _ Er).
+        -- assert (Hout : out = done ex sv (set_status (if bad_redir dc then 2%N else 127%N) s)).
+           { destruct (bad_redir dc); inversion H; reflexivity. }
+           subst out.
+           exists (apply_errexit stk (set_status (if bad_redir dc then 2%N else 127%N) s)),
+                  (set_status (if bad_redir dc then 2%N else 127%N) s). split.
+           ++ now1. cbn [exec_cmd]. rewrite Evia. unfold classify. rewrite Esp, Efun, Ereg. reflexivity.
+           ++ apply abs_apply_errexit. exact Hex.
+Qed.
+
+(* ---- commands ---- *)
+Lemma rstep_cmd n : rsim_all n -> rsim_cmd (S n).
+Proof.
+  intros [Icmd Ilist Iandor Ipipe Icmds Imulti Isub Itrap Ielse Ifor Iloop Iclause].
+  intros stk c s out d infun ex sv H Hc Hw Hs.
+  pose proof (co_ex _ _ _ _ Hc) as Hex.
+  destruct c.
+  - (* assignment *)
+    cbn [sem_cmd] in H.
+    destruct (expand_word w s) as [fields|] eqn:Ew.
+    + destruct (is_ronly x s) eqn:Ero.
+      * inversion H; subst out. exists (handle_expansion_error stk s), s. split.
+        -- now1. cbn [exec_cmd]. rewrite Ew, Ero. reflexivity.
+        -- apply (abs_expansion_error stk sv s ErrAssignment eq_refl eq_refl ex).
+      * inversion H; subst out. eexists; eexists. split.
+        -- now1. cbn [exec_cmd]. rewrite Ew, Ero. reflexivity.
+        -- rewrite apply_errexit_zero by reflexivity. reflexivity.
+    + inversion H; subst out. exists (handle_expansion_error stk s), s. split.
+      * now1. cbn [exec_cmd]. rewrite Ew. reflexivity.
+      * apply (abs_expansion_error stk sv s ErrExpansion eq_refl eq_refl ex).
+  - (* readonly *)
+    cbn [sem_cmd] in H. inversion H; subst out. eexists; eexists. split.
+    + now1. reflexivity.
+    + rewrite apply_errexit_zero by reflexivity. reflexivity.
+  - exact (rstep_call n Icmd _ _ _ _ _ _ _ _ _ _ H Hc Hw Hs).
+  - (* brace group *)
+    cbn [sem_cmd] in H. cbn [wf_cmd] in Hw.
+    destruct (Ilist stk _ _ _ _ _ _ _ H Hc Hw Hs) as (r & s' & Hok & Habs).
+    exists r, s'. split; [|exact Habs]. ok_start. cbn [exec_cmd]. ok_rw. reflexivity.
+  - (* subshell *)
+    cbn [sem_cmd] in H. cbn [wf_cmd] in Hw.
+    destruct (sem_subshell n ex body s) as [child|] eqn:Esub; [|discriminate].
+    inversion H; subst out.
+    pose proof (Isub stk _ _ _ infun ex Esub Hex Hw Hs) as Hok.
+    exists (apply_errexit stk (absorb_child s child)), (absorb_child s child). split.
+    + ok_start. cbn [exec_cmd]. ok_rw. reflexivity.
+    + apply abs_apply_errexit. exact Hex.
+  - (* if *)
+    cbn [wf_cmd] in Hw.
+    apply andb_true_iff in Hw as [Hw Hwl]. apply andb_true_iff in Hw as [Hw Hwe].
+    apply andb_true_iff in Hw as [Hwc Hwb].
+    destruct (rstep_else n Ilist Ielse stk _ _ _ _ _ _ _ _ _ _ _ H Hc Hwc Hwb Hwe Hwl Hs)
+      as (r & s' & Hok & Habs).
+    exists r, s'. split; [|exact Habs].
+    destruct Hok as [m Hm]. exists (S m). intros [|k] Hk; [lia|]. cbn [exec_cmd]. apply Hm. lia.
+  - (* while / until *)
+    cbn [sem_cmd] in H. cbn [wf_cmd] in Hw. apply andb_true_iff in Hw as [Hwc Hwb].
+    destruct (Iloop (FLoop :: stk) _ _ _ _ _ _ _ _ _ _ H (ctx_loop _ _ _ _ Hc) Hwc Hwb Hs)
+      as (r & s1 & reg1 & Hok & Hout).
+    destruct r as [|dv].
+    + exists Cont, (set_status reg1 s1). split; [|exact Hout].
+      ok_start. cbn [exec_cmd]. ok_rw. reflexivity.
+    + exists (Brk dv), s1. split; [|exact Hout].
+      ok_start. cbn [exec_cmd]. ok_rw. reflexivity.
+  - (* for *)
+    cbn [sem_cmd] in H. cbn [wf_cmd] in Hw.
+    apply andb_true_iff in Hw as [Hne Hwb].
+    destruct (expand_words ws s) as [values|] eqn:Ew.
+    + destruct values as [|v values'].
+      * inversion H; subst out. exists Cont, (set_status 0 s). split; [|reflexivity].
+        now1. cbn [exec_cmd]. rewrite Ew, Hne. reflexivity.
+      * destruct (Ifor (FLoop :: stk) _ _ _ _ _ _ _ _ _ H (ctx_loop _ _ _ _ Hc) Hwb Hs)
+          as (r & s' & Hok & Habs).
+        exists r, s'. split; [|exact Habs]. ok_start. cbn [exec_cmd]. rewrite Ew. ok_rw. reflexivity.
+    + inversion H; subst out. exists (handle_expansion_error stk s), s. split.
+      * now1. cbn [exec_cmd]. rewrite Ew. reflexivity.
+      * apply (abs_expansion_error stk sv s ErrExpansion eq_refl eq_refl ex).
+  - (* case *)
+    cbn [sem_cmd] in H. cbn [wf_cmd] in Hw. pose proof Hw as Hwi.
+    destruct (expand_word w s) as [fields|] eqn:Ew.
+    + destruct (find_clause (hd_error fields) items) as [[[b kc] rest]|] eqn:Ef.
+      * destruct (find_clause_wf _ _ _ _ _ _ _ Ef Hwi) as [Hwb' Hwr'].
+        destruct (items_find stk (hd_error fields) false s items _ _ _ Ef) as (pats' & Hm' & Himp).
+        destruct (Iclause stk _ _ _ _ pats' false _ _ _ _ _ _ H Hc Hwb' Hwr' Hs false Hm')
+          as (r & s' & Hok & Habs).
+        specialize (Himp _ Hok).
+        exists r, s'. split; [|exact Habs]. ok_start. cbn [exec_cmd]. rewrite Ew. ok_rw. reflexivity.
+      * inversion H; subst out. exists Cont, (set_status 0 s). split; [|reflexivity].
+        pose proof (items_skip stk (hd_error fields) false s items Ef) as Hskip.
+        ok_start. cbn [exec_cmd]. rewrite Ew. ok_rw. reflexivity.
+    + inversion H; subst out. exists (handle_expansion_error stk s), s. split.
+      * now1. cbn [exec_cmd]. rewrite Ew. reflexivity.
+      * apply (abs_expansion_error stk sv s ErrExpansion eq_refl eq_refl ex).
+  - (* function definition *)
+    cbn [sem_cmd] in H. inversion H; subst out. eexists; eexists. split.
+    + now1. reflexivity.
+    + rewrite apply_errexit_zero by reflexivity. reflexivity.
+  - (* trap *)
+    cbn [sem_cmd] in H. inversion H; subst out. eexists; eexists. split.
+    + now1. reflexivity.
+    + rewrite apply_errexit_zero by reflexivity. reflexivity.
+  - (* compound command with a failing redirection *)
+    cbn [sem_cmd] in H. inversion H; subst out.
+    exists (apply_errexit stk (set_status 2 s)), (set_status 2 s). split.
+    + now1. reflexivity.
+    + apply abs_apply_errexit. exact Hex.
+Qed.
+
+Theorem rsim_holds : forall n, rsim_all n.
+Proof.
+  induction n as [|n IH].
+  - split; repeat intro; try discriminate.
+    + (* rsim_commands 0: sem_commands 0 of an empty pipeline is defined *)
+      unfold sem_commands in H. destruct cs as [|c [|c2 cs2]]; try discriminate.
+      inversion H; subst. exists Cont, (set_status 0 s). split; [|reflexivity].
+      exists 1. intros [|k] Hk; [lia|]. reflexivity.
+    + (* rsim_else 0 *)
+      unfold sem_else in H. destruct e; [destruct has_else|]; try discriminate.
+      inversion H; subst. exists Cont, (set_status 0 s). split; [|reflexivity].
+      exists 1. intros [|k] Hk; [lia|]. reflexivity.
+  - pose proof IH as [Icmd Ilist Iandor Ipipe Icmds Imulti Isub Itrap Ielse Ifor Iloop Iclause].
+    assert (Jcmd : rsim_cmd (S n)) by (apply rstep_cmd; exact IH).
+    assert (Jlist : rsim_list (S n)) by (apply rstep_list; assumption).
+    assert (Jtrap : rsim_trap (S n)) by (apply rstep_trap; assumption).
+    assert (Jmulti : rsim_multi (S n)) by (apply rstep_multi; assumption).
+    split.
+    + exact Jcmd.
+    + exact Jlist.
+    + apply rstep_andor; assumption.
+    + apply rstep_pipeline; assumption.
+    + apply rcommands; assumption.
+    + exact Jmulti.
+    + apply rstep_subshell; assumption.
+    + exact Jtrap.
+    + apply relse; assumption.
+    + apply rstep_for; assumption.
+    + apply rstep_loop; assumption.
+    + apply rstep_clause; assumption.
 Qed.
 End Rev.
